@@ -55,6 +55,30 @@ def c14_pairs(res):
     return pairs, exhaustive_n
 
 
+def coq_lit(x):
+    return "[" + "; ".join(str(ord(ch)) for ch in x) + "]"
+
+
+def coq_eval(pid, imports, typ, exprs):
+    """evaluates closed Gallina expressions INSIDE Coq (vm_compute over the compiled theories - no extraction, no OCaml driver)
+    and returns the printed values as python objects (bool / list of code points); None if coqc fails"""
+    import ast, subprocess
+    d = os.path.join(irc.BUILD, "scratch")
+    os.makedirs(d, exist_ok=True)
+    path = os.path.join(d, "cases_%s.v" % pid)
+    with open(path, "w") as f:
+        f.write("From IRC Require Import %s.\nFrom Coq Require Import NArith List.\nImport ListNotations.\nOpen Scope N_scope.\n" % imports)
+        f.write("Definition cases : list (%s) := [\n  %s].\nEval vm_compute in cases.\n" % (typ, ";\n  ".join(exprs)))
+    p = subprocess.run(["coqc", "-noglob", "-Q", os.path.join(irc.VERIF, "coq", "theories"), "IRC", path],
+                       capture_output=True, text=True, timeout=900)
+    if p.returncode != 0:
+        return None
+    out = p.stdout
+    body = out[out.index("= ") + 2:out.rindex(": list")]
+    body = body.replace("%N", "").replace(";", ",").replace("true", "True").replace("false", "False")
+    return ast.literal_eval(" ".join(body.split()))
+
+
 def check_C14(res):
     pairs, exh = c14_pairs(res)
     lines = ["W %s %s" % (hx(p), hx(t)) for p, t in pairs]
@@ -113,6 +137,28 @@ def check_C14(res):
             norm_bad += 1
             res.violation("correspondence Mask.normalize_mask vs normalize_sourcemask differs", {"mask": m, "impl": a, "model": b},
                           found=False)
+    # the extraction itself: a sample is evaluated by the Coq kernel's own evaluator on the compiled theories and compared with
+    # what the extracted OCaml program answered (and, transitively, with the implementation)
+    rng2 = random.Random(res.seed + 141)
+    ks = sorted(rng2.sample(range(len(pairs)), 300 if res.tier == "quick" else 2000))
+    kv = coq_eval("C14w", "Str Wild Glob", "bool * bool", ["(wild_match %s %s, glob %s %s)" % (coq_lit(pairs[k][0]), coq_lit(pairs[k][1]), coq_lit(pairs[k][0]), coq_lit(pairs[k][1])) for k in ks])
+    ms = sorted(rng2.sample(range(len(masks)), 100))
+    mv = coq_eval("C14n", "Str Mask", "list N", ["normalize_mask %s" % coq_lit(masks[k]) for k in ms])
+    kernel_checked = 0
+    if kv is None or mv is None:
+        res.violation("the model could not be evaluated inside Coq (cases file does not compile)", {"kind": "tie"}, found=False)
+    else:
+        for k, (w, g) in zip(ks, kv):
+            kernel_checked += 1
+            if (model[k] == "true") != w or (spec[k] == "true") != g:
+                res.violation("the extracted program and Coq's own evaluation of wild_match / glob disagree on (%r, %r): extracted %s / %s, in Coq %s / %s" % (
+                    pairs[k][0], pairs[k][1], model[k], spec[k], w, g), {"kind": "tie", "pattern": pairs[k][0], "text": pairs[k][1]}, found=False)
+                break
+        for k, v in zip(ms, mv):
+            kernel_checked += 1
+            if not nm[k].startswith("PANIC") and json.loads(nm[k]) != "".join(chr(c) for c in v):
+                res.violation("the extracted program and Coq's own evaluation of normalize_mask disagree on %r" % masks[k], {"kind": "tie", "mask": masks[k]}, found=False)
+                break
     # callers of the matcher, through the real server: bans, exceptions, invex, oper/user masks, WHO, WHOIS
     prof = {"weights": dict(MODE=16, JOIN=14, WHO=6, WHOIS=5, OPER=4, PRIVMSG=6, KICK=1, TOPIC=1, MISC=0.3, BAD=0.5),
             "p_users": 0.6, "p_operators": 0.9}
@@ -132,7 +178,7 @@ def check_C14(res):
         "traces_validated_against_impl": l2["traces"],
         "samples": [{"pattern": p, "text": t, "impl": impl[i], "model": model[i], "glob": spec[i]}
                     for i, (p, t) in list(enumerate(pairs))[exh:exh + 6]] + [{"mask": masks[25], "normalized": ni[25]}],
-        "matching_pairs": n_true, "release_build_checked": impl_rel is not None,
+        "matching_pairs": n_true, "release_build_checked": impl_rel is not None, "evaluated_inside_coq": kernel_checked,
         "l2": l2["summary"]})
     res.assumptions = ["UTF-8 <-> code point conversion in the two drivers is trusted",
                        "callers (bans, exceptions, invite exceptions, OPER and user masks, WHO, WHOIS) are tied by server traces, see l2"]
@@ -1090,12 +1136,12 @@ def join_profile():
 
 
 def check_C07(res):
-    sweep = c07_sweep(res)
+    sweep = c07_sweep(res) + invite_life_traces()
     n = 100 if res.tier == "quick" else 2000
     r = l2_campaign(res, "C07", n, 45, join_profile(), traces=sweep, oracle=lambda t, st: join_oracle(t, st) + inv_oracle(t, st))
     res.coverage.update({
-        "evaluations": r["steps"], "distinct_nontrivial": len(set(tuple(t.meta["cell"]) for t in sweep)),
-        "rule": "sweep over the admission table: key {unset, right, wrong, missing} x banned x excepted x +i x invited x invite-exception x full x quota reached = 512 cells, each set up "
+        "evaluations": r["steps"], "distinct_nontrivial": len(set(tuple(t.meta.get("cell") or (t.id,)) for t in sweep)),
+        "rule": "ten invitation-lifetime histories (an invitation outliving its channel, used on a channel the invitee re-creates, twice, after KICK / PART; ordinary and configured channels); sweep over the admission table: key {unset, right, wrong, missing} x banned x excepted x +i x invited x invite-exception x full x quota reached = 512 cells, each set up "
                 "through real MODE/INVITE commands on a preconfigured channel and probed with two JOINs (quick tier: a seed-selected quarter = 128 cells; thorough: all); distinct = cells run; plus %d "
                 "seeded random histories with comma lists and per-channel keys; every JOIN step is compared impl vs model and against the admission rule evaluated on the implementation's own pre-state" % n,
         "exhaustive": res.tier == "thorough",
@@ -1335,6 +1381,50 @@ def rank_oracle(t, steps):
 RANK_SUBSETS = ["".join(x) for k in range(6) for x in itertools.combinations("qaohv", k)]
 
 
+def invite_life_traces():
+    """ "an invitation grants ONE admission": invitations that outlive the channel, are used on a channel the invitee
+    (re-)creates, on an ordinary join, after a KICK, twice - on ordinary and configured channels (seeded C09-d, C07-f)"""
+    traces = []
+    for k2, (pre, how) in enumerate(itertools.product((False, True), ("recreate", "plain", "twice", "kicked", "parted"))):
+        cfg = Config(channels=[dict(name="#club", topic=None, flags="", founders=["alice"])] if pre else [])
+        t = Trace("c09-invite-%d" % k2, cfg)
+        for c, n2 in enumerate(["alice", "bob", "carol"]):
+            t.register(c, n2)
+        t.line(0, "JOIN #club")
+        t.line(0, "INVITE bob #club")
+        if how == "recreate":
+            t.line(0, "PART #club")            # the channel dies (or stays empty) with the invitation pending
+            t.line(1, "JOIN #club")            # the invitee (re-)creates it: this is the admission the invitation is good for
+            t.line(0, "JOIN #club")
+            t.line(1, "MODE #club +i")         # whoever holds the rank now closes the channel
+            t.line(0, "MODE #club +i")
+            t.line(1, "PART #club")
+        elif how == "plain":
+            t.line(1, "JOIN #club")
+            t.line(1, "PART #club")
+        elif how == "twice":
+            t.line(0, "INVITE bob #club")
+            t.line(1, "JOIN #club")
+            t.line(1, "PART #club")
+        elif how == "kicked":
+            t.line(1, "JOIN #club")
+            t.line(0, "KICK #club bob")
+        else:
+            t.line(0, "MODE #club +i")
+            t.line(1, "JOIN #club")
+            t.line(1, "PART #club :once")
+        t.line(0, "JOIN #club")
+        t.line(0, "MODE #club +i")
+        t.line(1, "JOIN #club")                # no new invitation: must be refused with 473
+        t.line(0, "NAMES #club")
+        t.line(0, "INVITE bob #club")
+        t.line(1, "JOIN #club")
+        t.line(2, "JOIN #club")
+        t.meta = {"actor": "invite", "victim": how, "flags": "pre" if pre else ""}
+        traces.append(t)
+    return traces
+
+
 def c09_sweep(res):
     """actor rank subset x victim rank subset through preconfigured rank lists; +t/-t, +i/-i"""
     traces = []
@@ -1366,51 +1456,16 @@ def c09_sweep(res):
             t.line(0, "INVITE victim #r")
             t.line(3, "INVITE third #r")
             t.line(0, "KICK #r nobody,victim,victim :out")
+            t.line(1, "JOIN #r")
+            t.line(0, "KICK #r victim,third,victim,nobody,third :again")    # names repeated after another name (seeded C09-f)
+            t.line(2, "JOIN #r")
             t.line(2, "NAMES #r")
             t.line(1, "JOIN #r")
             t.line(1, "KICK #r actor")
             t.line(2, "KICK #r third")
             t.meta = {"actor": a, "victim": v, "flags": ch["flags"]}
             traces.append(t)
-    # "an invitation grants ONE admission": invitations that outlive the channel, are used on a channel the invitee creates,
-    # on an ordinary join, after a KICK, twice - on ordinary and configured channels
-    for k2, (pre, how) in enumerate(itertools.product((False, True), ("recreate", "plain", "twice", "kicked", "parted"))):
-        cfg = Config(channels=[dict(name="#club", topic=None, flags="")] if pre else [])
-        t = Trace("c09-invite-%d" % k2, cfg)
-        for c, n2 in enumerate(["alice", "bob", "carol"]):
-            t.register(c, n2)
-        t.line(0, "JOIN #club")
-        t.line(0, "INVITE bob #club")
-        if how == "recreate":
-            t.line(0, "PART #club")            # the channel dies (or stays empty) with the invitation pending
-            t.line(1, "JOIN #club")            # the invitee (re-)creates it: this is the admission the invitation is good for
-            t.line(1, "PART #club")
-        elif how == "plain":
-            t.line(1, "JOIN #club")
-            t.line(1, "PART #club")
-        elif how == "twice":
-            t.line(0, "INVITE bob #club")
-            t.line(1, "JOIN #club")
-            t.line(1, "PART #club")
-        elif how == "kicked":
-            t.line(1, "JOIN #club")
-            t.line(0, "KICK #club bob")
-        else:
-            t.line(0, "MODE #club +i")
-            t.line(1, "JOIN #club")
-            t.line(1, "PART #club :once")
-        t.line(0, "JOIN #club")
-        for tp in (":)", ":", "a:b", "", "two words", ":-D x", "plain"):
-            t.line(0, "TOPIC #club :" + tp)    # what is relayed to the members re-parses to what was sent and is what TOPIC shows later
-            t.line(0, "TOPIC #club")
-        t.line(0, "MODE #club +i")
-        t.line(1, "JOIN #club")                # no new invitation: must be refused with 473
-        t.line(0, "NAMES #club")
-        t.line(0, "INVITE bob #club")
-        t.line(1, "JOIN #club")
-        t.line(2, "JOIN #club")
-        t.meta = {"actor": "invite", "victim": how, "flags": "pre" if pre else ""}
-        traces.append(t)
+    traces += invite_life_traces()
     return traces
 
 
@@ -1423,7 +1478,7 @@ def check_C09(res):
     res.coverage.update({
         "evaluations": r["steps"], "distinct_nontrivial": len(set((t.meta["actor"], t.meta["victim"], t.meta["flags"]) for t in sweep)),
         "rule": "sweep: 32 actor rank subsets x 32 victim rank subsets (set through the configured rank lists of a preconfigured channel) with +t/+i varied, each running TOPIC, INVITE (to an "
-                "outsider, to a member, from an outsider), KICK with an absent, a present and a repeated name, self-directed and counter kicks (quick: a seed-selected sixth = ~171 cells; thorough: all 1024); "
+                "outsider, to a member, from an outsider), KICK with an absent, a present and a repeated name (adjacent, and repeated after another name), self-directed and counter kicks (quick: a seed-selected sixth = ~171 cells; thorough: all 1024); "
                 "distinct = cells; plus %d seeded random histories; each KICK/TOPIC/INVITE step is compared impl vs model and against the rank rule evaluated on the implementation's pre-state" % n,
         "exhaustive": res.tier == "thorough",
         "traces_validated_against_impl": r["traces"],
@@ -1694,6 +1749,13 @@ def check_C08(res):
         excs = [["f*!*@*", "nobody!*@*"], ["nobody!*@*", "frank!*@127.*", "zed!*@*"], ["*!*@10.*", "q!*@*"]][k2]
         for e in excs:
             t.line(0, "MODE #m +e " + e)
+        # refused edits of non-empty lists by a plain member (482): every list stays as it is (seeded C08-f, C10-c)
+        t.line(1, "MODE #m +b x!*@*")
+        t.line(1, "MODE #m -b frank!*@*")
+        t.line(1, "MODE #m +e q!*@*")
+        t.line(1, "MODE #m -e " + excs[0])
+        t.line(1, "MODE #m b")
+        t.line(1, "MODE #m e")
         t.line(2, "PRIVMSG #m :excepted by one of several masks?")
         t.line(3, "JOIN #m")
         t.line(3, "PART #m")
@@ -1708,6 +1770,10 @@ def check_C08(res):
         t.line(0, "MODE #m +I z?d!*@*")
         t.line(0, "MODE #m +I other!*@*")
         t.line(0, "MODE #m -b z*!*@*")
+        t.line(1, "MODE #m +I dave!*@*")
+        t.line(1, "MODE #m -I z?d!*@*")
+        t.line(1, "MODE #m -I nobody!*@*")
+        t.line(1, "MODE #m I")
         t.line(3, "JOIN #m")
         sweep.append(t)
 
@@ -2441,6 +2507,35 @@ def retry_after_refusal_traces(res):
     return traces
 
 
+def long_relay_traces(res):
+    """texts close to the input limit made of multi-byte characters: relayed with the sender's prefix they pass 2000 bytes, with
+    byte 2000 inside a character for some alignments (seeded C05-f) - every relay, announcement and later answer must still work"""
+    out = []
+    for k, body in enumerate(["é" * 985, "😀" * 492, "é" * 900 + "😀" * 40]):
+        t = Trace("c05-long-relay-%d" % k, Config())
+        t.register(0, "alice")
+        t.register(1, "bob")
+        t.register(2, "carol")
+        for c in (0, 1, 2):
+            t.line(c, "JOIN #a")
+        for pad in ("", "x", "xx", "xxx"):
+            t.line(0, "PRIVMSG bob :" + pad + body)
+            t.line(0, "NOTICE #a :" + pad + body)
+            t.line(0, "TOPIC #a :" + pad + body)
+            t.line(2, "TOPIC #a")
+            t.line(0, "AWAY :" + pad + body)
+            t.line(1, "PRIVMSG alice :are you there")
+            t.line(2, "PART #a :" + pad + body)
+            t.line(2, "JOIN #a")
+            t.line(0, "KICK #a carol :" + pad + body)
+            t.line(2, "JOIN #a")
+        for c in (0, 1, 2):
+            t.line(c, "PING alive")
+            t.line(c, "PRIVMSG #a :still here")
+        out.append(t)
+    return out
+
+
 def check_C05(res):
     n = 200 if res.tier == "quick" else 3000
     rng = random.Random(res.seed + 5)
@@ -2477,7 +2572,7 @@ def check_C05(res):
             t.line(c2, "PING alive")
             t.line(c2, "PRIVMSG #a :still here")
         traces.append(t)
-    traces += retry_after_refusal_traces(res)
+    traces += retry_after_refusal_traces(res) + long_relay_traces(res)
     # numeric extremes against real history: WHOWAS counts below, at and above the number of stored entries (after peers
     # left or renamed), limits at the edges of the integer range
     tn = Trace("C05-numeric", Config())
@@ -3680,6 +3775,42 @@ def check_C13(res):
     if tie_fail and not (spec_fail or rt_fail):
         res.violation("correspondence Parse.v vs command.rs differs on %d pure inputs" % tie_fail,
                       {"kind": "tie", "note": "the implementation agrees with the grammar oracle on every explored input"}, found=False)
+    # C2. the encoder: every emitted line is one CRLF-terminated message, and the codec's own decoder gives the lines back
+    rng_e = random.Random(res.seed + 1313)
+    enc_cases = []
+    for _ in range(200 if res.tier == "quick" else 3000):
+        ls = []
+        for _ in range(rng_e.randint(1, 5)):
+            kind = rng_e.random()
+            body = "".join(rng_e.choice("abc :#é\r\t😀!@") for _ in range(rng_e.randint(0, 40)))
+            if kind < 0.1:
+                body += "\r"
+            elif kind < 0.15:
+                body = "x" * rng_e.choice([1996, 1997, 1998])
+            elif kind < 0.25:
+                # longer than the input limit (the server may emit such lines: prefix + a text close to the limit), multi-byte
+                # characters across byte 2000 (seeded C05-f)
+                body = "x" * rng_e.randint(0, 3) + "é" * rng_e.randint(990, 1010) + "😀" * rng_e.randint(0, 3)
+            ls.append(body)
+        enc_cases.append(ls)
+    enc_lines = ["E " + " ".join(hx(l) if l else "" for l in ls) for ls in enc_cases if all(ls)]
+    enc_cases = [ls for ls in enc_cases if all(ls)]
+    ei = run_pure(enc_lines)
+    em = run_pure(enc_lines, model=True)
+    enc_fail = 0
+    for ls, a, b in zip(enc_cases, ei, em):
+        want_bytes = "".join((l.encode("utf-8") + b"\r\n").hex() for l in ls)
+        want = "%s | %s | 0" % (want_bytes, " ".join(l.encode("utf-8").hex() for l in ls))
+        if any(len(l.encode("utf-8")) > 1998 for l in ls):
+            # beyond the decoder's own limit only what is written is judged
+            a, b, want = a.split(" | ")[0], b.split(" | ")[0], want_bytes
+        if a != want:
+            enc_fail += 1
+            if enc_fail <= 2:
+                res.violation("the encoder does not write each line as one CRLF-terminated message that its own decoder gives back: lines %r -> %s" % (ls, a[:300]),
+                              {"kind": "pure", "case": "E " + " ".join(hx(l) for l in ls), "impl": a[:2000], "expected": want[:2000]}, found=True)
+        elif a != b:
+            res.violation("correspondence Frame.encode / Frame.feed vs IRCLinesCodec differs", {"kind": "tie", "lines": ls, "impl": a[:500], "model": b[:500]}, found=False)
     # D. on the wire
     relay = c13_relay_traces(res)
     pairs, longs = c13_framing_pairs(res)
